@@ -4,11 +4,41 @@ The writer's steps (`wAppend … wAck`, `rotate`) preserve the invariant (fault-
 -/
 namespace GoLevel.Dur
 
-/-- a job is not disturbed by what the writer does: it changes `w`, `issued`, `hi`, `mem`, `seq` and the
-    current journal only -/
+theorem modify_id {α : Type} (m : Files α) (n : Nat) : m.modify n id = m := by
+  unfold Files.modify
+  conv => rhs; rw [← List.map_id m]
+  apply List.map_congr_left
+  intro p _
+  split
+  · rename_i h; cases p; simp_all
+  · rfl
+
+theorem disk_modify_id (d : Disk) (n : Nat) : { d with journals := d.journals.modify n id } = d := by
+  rw [modify_id]
+
+/-! ## what the writer changes: `w`, `issued`, `hi`, `mem`, `seq`, and the current journal -/
+
+/-- the state after the writer changed its fields -/
+abbrev St.wr (s : St) (w' : WPc) (i' : List Issue) (h' : Nat) (m' : List Grp) (q' : Nat) (ef' : Bool) : St :=
+  { s with w := w', issued := i', hi := h', mem := m', seq := q', everFailed := ef' }
+
+/-- the groups that must survive grow only by groups above everything journalled so far -/
+def MustGrows (s s' : St) : Prop := ∀ g ∈ must s', g ∈ must s ∨ s.seq + 1 < g.fin
+
+theorem Stale0.mono {s s' : St} {jf : LogFile Grp} (h : Stale0 s jf) (hq : s.seq ≤ s'.seq) (hm : MustGrows s s') :
+    Stale0 s' jf := by
+  intro g hg
+  obtain ⟨a, b⟩ := h g hg
+  refine ⟨fun hx => ?_, by omega⟩
+  rcases hm g hx with h1 | h1
+  · exact a h1
+  · omega
+
+/-- a job is not disturbed by what the writer does -/
 theorem JobOK.writer {cfg : Cfg} {s : St} {d : Disk} {j : Job} (h : JobOK cfg s d j) (hr : s.phase = .running)
-    (htr : s.tr = none) (w' : WPc) (i' : List Issue) (h' : Nat) (m' : List Grp) (q' : Nat) (f : LogFile Grp → LogFile Grp) :
-    JobOK cfg { s with w := w', issued := i', hi := h', mem := m', seq := q' }
+    (htr : s.tr = none) (w' : WPc) (i' : List Issue) (h' : Nat) (m' : List Grp) (q' : Nat) (ef' : Bool) (f : LogFile Grp → LogFile Grp)
+    (hq : s.seq ≤ q') (hm : MustGrows s { s with w := w', issued := i', hi := h', mem := m', seq := q', everFailed := ef' }) :
+    JobOK cfg { s with w := w', issued := i', hi := h', mem := m', seq := q', everFailed := ef' }
       { d with journals := d.journals.modify s.jcur f } j := by
   obtain ⟨h1, h2, h3, h4, h5, h6, h7, h8, h9, h10, h11, h12⟩ := h
   have hkinds : j.kind = .flush ∨ j.kind = .compaction := by
@@ -26,7 +56,7 @@ theorem JobOK.writer {cfg : Cfg} {s : St} {d : Disk} {j : Job} (h : JobOK cfg s 
       · exact absurd h2 id
     · rw [hk] at h2
       exact h2.2.1
-  have h2' : JobKindOK { s with w := w', issued := i', hi := h', mem := m', seq := q' } j := by
+  have h2' : JobKindOK { s with w := w', issued := i', hi := h', mem := m', seq := q', everFailed := ef' } j := by
     unfold JobKindOK at h2 ⊢
     rcases hkinds with hk | hk <;> rw [hk] at h2 ⊢ <;> exact h2
   refine ⟨h1, h2', h3, h4, h5, h6, h7, ?_, ?_, h10, h11, h12⟩
@@ -48,7 +78,7 @@ theorem JobOK.writer {cfg : Cfg} {s : St} {d : Disk} {j : Job} (h : JobOK cfg s 
           simp only [ite_true] at hpn
           omega
         rw [if_neg this] at hpn ⊢
-        exact h2 p0 hp0 hpn
+        exact (h2 p0 hp0 hpn).mono hq hm
     · rename_i rest heq; rw [heq] at hv; exact hv
     · rename_i rest heq; rw [heq] at hv; exact hv
     · trivial
@@ -71,7 +101,7 @@ theorem rel_groups_old {cfg : Cfg} {s : St} {d : Disk} (hd : DiskOK cfg d (must 
   have hrel := r2 p (mem_relJournals.1 hp0).1 (mem_relJournals.1 hp0).2
   rcases hrel with h1 | h1 | h1
   rotate_left 2
-  · rw [h1] at hx; cases hx
+  · exact (h1.1 x hx).2
   · -- the current journal
     have hl := hrun.jcur
     rw [holds_iff] at hl
@@ -80,38 +110,53 @@ theorem rel_groups_old {cfg : Cfg} {s : St} {d : Disk} (hd : DiskOK cfg d (must 
       lookup_of_mem (sorted_nodup hd.jsorted) (by cases p; exact (mem_relJournals.1 hp).1)
     rw [h1, hjf] at this
     cases this
-    rw [hall, hw, List.append_nil] at hx
-    exact hmem x hx
+    rcases hall.2.2.1 x hx with h2 | h2
+    · rw [hw, List.append_nil] at h2
+      exact hmem x h2
+    · exact h2
   · -- the frozen journal
     rcases frozenOK_iff.1 hrun.frozen with ⟨_, h3⟩ | ⟨fz, jf, _, h3, hf⟩
     · rw [h3] at h1; cases h1
     · rw [h3] at h1
       cases h1
       obtain ⟨_, f2, f3, _, f5, _⟩ := hf
-      rw [f5 p (mem_relJournals.1 hp).1 rfl] at hx
-      have := f3 x hx
-      omega
+      rcases (f5 p (mem_relJournals.1 hp).1 rfl).2.2.1 x hx with h2 | h2
+      · have := f3 x h2
+        omega
+      · omega
 
-/-- `FrozenOK` survives a change of the current journal's content that keeps `mem ++ inflight` newer than
-    the frozen buffer -/
+/-- `FrozenOK` survives what the writer does -/
 theorem FrozenOK.writer {cfg : Cfg} {s : St} {d : Disk} (h : FrozenOK cfg s d)
-    (w' : WPc) (i' : List Issue) (h' : Nat) (m' : List Grp) (q' : Nat) (f : LogFile Grp → LogFile Grp)
-    (hq : s.seq ≤ q') (hnew : ∀ g ∈ m' ++ inflight w', (g ∈ s.mem ++ inflight s.w) ∨ s.seq < g.seq) :
-    FrozenOK cfg { s with w := w', issued := i', hi := h', mem := m', seq := q' }
+    (w' : WPc) (i' : List Issue) (h' : Nat) (m' : List Grp) (q' : Nat) (ef' : Bool) (f : LogFile Grp → LogFile Grp)
+    (hq : s.seq ≤ q') (hef : ef' = false → s.everFailed = false)
+    (hnew : ∀ jf, ∀ g ∈ (f jf).all, g ∈ jf.all ∨ s.seq < g.seq)
+    (hm : MustGrows s { s with w := w', issued := i', hi := h', mem := m', seq := q', everFailed := ef' }) :
+    FrozenOK cfg { s with w := w', issued := i', hi := h', mem := m', seq := q', everFailed := ef' }
       { d with journals := d.journals.modify s.jcur f } := by
   rcases frozenOK_iff.1 h with ⟨h1, h2⟩ | ⟨fz, jf, h1, h2, f1, f2, f3, f4, f5, f6⟩
   · exact frozenOK_iff.2 (Or.inl ⟨h1, h2⟩)
   · refine frozenOK_iff.2 (Or.inr ⟨fz, jf, h1, h2, f1, Nat.le_trans f2 hq, f3, ?_, ?_, ?_⟩)
-    · intro g hg
-      rcases hnew g hg with h3 | h3
-      · exact f4 g h3
-      · show s.frozenSeq < g.seq; omega
+    · intro p hp hpn g hg
+      obtain ⟨p0, hp0, rfl⟩ := mem_modify.1 hp
+      by_cases hpc : p0.1 = s.jcur
+      · rw [if_pos hpc] at hg
+        rcases hnew p0.2 g hg with h3 | h3
+        · exact f4 p0 hp0 hpc g h3
+        · show s.frozenSeq < g.seq; omega
+      · rw [if_neg hpc] at hpn hg
+        exact f4 p0 hp0 hpn g hg
     · intro p hp hpn
       obtain ⟨p0, hp0, rfl⟩ := mem_modify.1 hp
       have : p0.1 ≠ s.jcur := by
         intro e; rw [e] at hpn; simp only [ite_true] at hpn; omega
       rw [if_neg this] at hpn ⊢
-      exact f5 p0 hp0 hpn
+      obtain ⟨a, b, c, e, e5⟩ := f5 p0 hp0 hpn
+      refine ⟨a, fun g hg hgm => ?_, c, e, fun hx => e5 (hef hx)⟩
+      rcases hm g hgm with h3 | h3
+      · exact b g hg h3
+      · rcases c g hg with h4 | h4
+        · exact h4
+        · omega
     · intro hn
       obtain ⟨⟨p, hp, hpn⟩, f7⟩ := f6 hn
       refine ⟨⟨_, mem_modify.2 ⟨p, hp, rfl⟩, ?_⟩, f7⟩
@@ -120,18 +165,21 @@ theorem FrozenOK.writer {cfg : Cfg} {s : St} {d : Disk} (h : FrozenOK cfg s d)
 /-- the parts of `RunOK` that do not look at `w`, `mem`, `seq`, `issued` survive a change of the current
     journal's content -/
 theorem RunOK.writer {cfg : Cfg} {s : St} {d : Disk} (h : RunOK cfg s d)
-    (w' : WPc) (i' : List Issue) (h' : Nat) (m' : List Grp) (q' : Nat) (f : LogFile Grp → LogFile Grp)
-    (hq : s.seq ≤ q') (hnew : ∀ g ∈ m' ++ inflight w', (g ∈ s.mem ++ inflight s.w) ∨ s.seq < g.seq)
-    (hall : ∀ jf, lookup d.journals s.jcur = some jf → (f jf).all = m' ++ inflight w')
-    (hws : WSeqOK { s with w := w', issued := i', hi := h', mem := m', seq := q' }) (htr : s.tr = none) :
-    RunOK cfg { s with w := w', issued := i', hi := h', mem := m', seq := q' }
+    (w' : WPc) (i' : List Issue) (h' : Nat) (m' : List Grp) (q' : Nat) (ef' : Bool) (f : LogFile Grp → LogFile Grp)
+    (hq : s.seq ≤ q') (hef : ef' = false → s.everFailed = false)
+    (hnew : ∀ jf, ∀ g ∈ (f jf).all, g ∈ jf.all ∨ s.seq < g.seq)
+    (hm : MustGrows s { s with w := w', issued := i', hi := h', mem := m', seq := q', everFailed := ef' })
+    (hall : ∀ jf, lookup d.journals s.jcur = some jf →
+      JournalHolds { s with w := w', issued := i', hi := h', mem := m', seq := q', everFailed := ef' } (f jf) (m' ++ inflight w') q')
+    (hws : WSeqOK { s with w := w', issued := i', hi := h', mem := m', seq := q', everFailed := ef' }) (htr : s.tr = none) :
+    RunOK cfg { s with w := w', issued := i', hi := h', mem := m', seq := q', everFailed := ef' }
       { d with journals := d.journals.modify s.jcur f } := by
   obtain ⟨r1, r2, r3, r4, r5, r6, r7, r8, r9⟩ := h
-  have htr' : TrOK { s with w := w', issued := i', hi := h', mem := m', seq := q' } := by
+  have htr' : TrOK { s with w := w', issued := i', hi := h', mem := m', seq := q', everFailed := ef' } := by
     unfold TrOK
     show Holds' s.tr _
     rw [htr]; trivial
-  refine ⟨⟨r1.1, htr'⟩, r2, ?_, ?_, ?_, hws, r7.writer w' i' h' m' q' f hq hnew, ?_, r9⟩
+  refine ⟨⟨r1.1, htr'⟩, r2, ?_, ?_, ?_, hws, r7.writer w' i' h' m' q' ef' f hq hef hnew hm, ?_, r9⟩
   · rw [holds_iff] at r3 ⊢
     obtain ⟨jf, hjf, _⟩ := r3
     refine ⟨f jf, ?_, hall jf hjf⟩
@@ -147,7 +195,13 @@ theorem RunOK.writer {cfg : Cfg} {s : St} {d : Disk} (h : RunOK cfg s d)
     obtain ⟨p0, hp0, rfl⟩ := mem_modify.1 hp
     by_cases hpc : p0.1 = s.jcur
     · rw [if_pos hpc]; exact Or.inl hpc
-    · rw [if_neg hpc] at hjn ⊢; exact hv0 p0 hp0 hjn
+    · rw [if_neg hpc] at hjn ⊢
+      rcases hv0 p0 hp0 hjn with h1 | h1 | h1
+      · exact Or.inl h1
+      · exact Or.inr (Or.inl h1)
+      · exact Or.inr (Or.inr ⟨h1.1.mono hq hm, fun ht => (by
+          have : s.tr.isSome = true := ht
+          rw [htr] at this; cases this), fun hx => h1.2.2 (hef hx)⟩)
 
 /-- a transaction job needs an open transaction -/
 theorem Inv.not_trWindow_of_tr_none {cfg : Cfg} {s : St} {d : Disk} (h : Inv cfg s d) (htr : s.tr = none) :
@@ -173,32 +227,196 @@ theorem RunOK.tr_none_of_w {cfg : Cfg} {s : St} {d : Disk} (h : RunOK cfg s d) (
   | none => rfl
   | some g => rw [ht] at this; exact absurd this.1 hw
 
-theorem inv_wAppend {cfg : Cfg} {s : St} {d : Disk} (h : Inv cfg s d) {recs : List Batch.Rec} {sync : Bool}
-    {s' : St} {d' : Disk} (hs : stepWriter cfg s d (.wAppend recs sync .ok) = some (s', d')) : Inv cfg s' d' := by
-  simp only [stepWriter, Disk.exec, Disk.apply] at hs
+theorem ackedSync_append_failed (l : List Issue) (g : Grp) : ackedSync (l ++ [⟨g, .failed⟩]) = ackedSync l := by
+  simp [ackedSync, List.filter_append]
+
+theorem mem_ackedSync_setStatus_failed {g x : Grp} {l : List Issue} (h : x ∈ ackedSync (setStatus g .failed l)) :
+    x ∈ ackedSync l ∧ x ≠ g := by
+  simp only [ackedSync, setStatus, List.mem_map, List.mem_filter, decide_eq_true_eq] at h ⊢
+  obtain ⟨i, ⟨⟨i0, hi0, rfl⟩, hst, hsy⟩, rfl⟩ := h
+  by_cases hg : i0.grp = g
+  · simp only [hg, if_true] at hst
+    cases hst
+  · simp only [hg, if_false] at hst hsy ⊢
+    exact ⟨⟨i0, ⟨hi0, hst, hsy⟩, rfl⟩, hg⟩
+
+/-- the group a new write is given is not one that must survive already: everything durable ends at or below
+    `seq + 1` -/
+theorem Inv.fresh_not_must {cfg : Cfg} {s : St} {d : Disk} (h : Inv cfg s d) (hph : s.phase = .running)
+    (hw : s.w = .idle) (htr : s.tr = none) {g : Grp} (hgs : g.seq = s.seq + 1) (hgr : g.recs ≠ []) : g ∉ must s := by
+  intro hg
+  have hrun := h.run hph
+  have hb := h.bounds (by rw [hph]; decide)
+  have hntw := h.not_trWindow_of_tr_none htr
+  have hwseq := hrun.wseq
+  unfold WSeqOK at hwseq
+  rw [hw] at hwseq
+  simp only at hwseq
+  have hinfl : inflight s.w = [] := by rw [hw]; rfl
+  obtain ⟨mf, v0, hparts⟩ := h.disk.parts
+  obtain ⟨v, hv, hok, _⟩ := hparts.views mf.unsynced.length (Nat.le_refl _)
+  have hbv := hb.all mf hparts.cur _ (Nat.le_refl _) v hv
+  rw [seqHi_eq hntw] at hbv
+  have hfin := Grp.seq_lt_fin hgr
+  rcases hok.cover g hg with h1 | ⟨p, hp, hgp⟩
+  · have := (hok.tseq g h1).1
+    omega
+  · have := rel_groups_old h.disk hrun hinfl hwseq mf hparts.cur _ (Nat.le_refl _) v hv p hp g
+      (by simp [LogFile.all, hgp])
+    omega
+
+/-- the journal operation of `writeJournal`: the record is appended; the operation may fail, with or without
+    the record in the file; a failure consumes the sequence numbers (`consumeSeqOnJournalError`) -/
+theorem inv_wAppend_any {cfg : Cfg} {s : St} {d : Disk}
+    (h : Inv cfg s d) {recs : List Batch.Rec} {sync : Bool} {o : Outcome}
+    (hcs' : o.failed = true → cfg.consumeSeqOnJournalError = true)
+    {s' : St} {d' : Disk} (hs : stepWriter cfg s d (.wAppend recs sync o) = some (s', d')) : Inv cfg s' d' := by
+  simp only [stepWriter] at hs
   split at hs
-  · rename_i hg
-    obtain ⟨hph, hw, hrecs, htr⟩ := hg
-    simp only [Outcome.failed, Bool.false_eq_true, if_false, Option.some.injEq, Prod.mk.injEq] at hs
+  rotate_left
+  · cases hs
+  rename_i hg
+  obtain ⟨hph, hw, hrecs, htr⟩ := hg
+  have hrun := h.run hph
+  have hb := h.bounds (by rw [hph]; decide)
+  have hntw := h.not_trWindow_of_tr_none htr
+  have hwseq := hrun.wseq
+  unfold WSeqOK at hwseq
+  rw [hw] at hwseq
+  simp only at hwseq
+  -- the new group
+  let g : Grp := ⟨s.seq + 1, recs, sync⟩
+  have hgseq : g.seq = s.seq + 1 := rfl
+  have hgr : g.recs ≠ [] := hrecs
+  have hfin := Grp.seq_lt_fin hgr
+  have hinfl : inflight s.w = [] := by rw [hw]; rfl
+  have hold := rel_groups_old h.disk hrun hinfl hwseq
+  have hnm : g ∉ must s := h.fresh_not_must hph hw htr hgseq hgr
+  have hjc := hrun.jcur
+  rw [holds_iff] at hjc
+  obtain ⟨jf0, hjf0, hjh0⟩ := hjc
+  rw [hinfl, List.append_nil] at hjh0
+  have happ : ∀ jf : LogFile Grp, (jf.append g).all = jf.all ++ [g] := by
+    intro jf; simp [LogFile.append, LogFile.all, List.append_assoc]
+  -- the view facts the append needs
+  have hview : ∀ mf, curManifest d = some mf → ∀ k ≤ mf.unsynced.length, ∀ v, viewAt cfg mf k = some v →
+      v.sq ≤ g.seq ∧ (∀ x ∈ liveGrps d v, x.fin ≤ g.seq) ∧ ∀ p ∈ relJournals d v.jn, ∀ x ∈ p.2.all, x.fin ≤ g.seq := by
+    intro mf hc k hk v hv
+    have hbv := hb.all mf hc k hk v hv
+    rw [seqHi_eq hntw] at hbv
+    have hok := h.disk.allViews mf hc k hk v hv
+    refine ⟨by rw [hgseq]; omega, fun x hx => ?_, fun p hp x hx => ?_⟩
+    · have := (hok.tseq x hx).1; rw [hgseq]; omega
+    · have := hold mf hc k hk v hv p hp x hx; rw [hgseq]; exact this
+  by_cases hof : o.failed = true
+  · -- the write failed
+    have hcs := hcs' hof
+    simp only [hof, if_true, hcs, Option.some.injEq, Prod.mk.injEq] at hs
     obtain ⟨rfl, rfl⟩ := hs
-    have hrun := h.run hph
-    have hb := h.bounds (by rw [hph]; decide)
-    have hntw := h.not_trWindow_of_tr_none htr
-    have hwseq := hrun.wseq
-    unfold WSeqOK at hwseq
-    rw [hw] at hwseq
-    simp only at hwseq
-    -- the new group
-    let g : Grp := ⟨s.seq + 1, recs, sync⟩
-    have hgseq : g.seq = s.seq + 1 := rfl
-    have hinfl : inflight s.w = [] := by rw [hw]; rfl
-    have hold := rel_groups_old h.disk hrun hinfl hwseq
+    have hmust : must { s with issued := s.issued ++ [⟨g, .failed⟩], hi := g.fin, seq := g.fin - 1, everFailed := true } = must s := by
+      rw [must_eq, must_eq]
+      simp only [ackedSync_append_failed]
+    have hmg : MustGrows s (s.wr s.w (s.issued ++ [⟨g, .failed⟩]) g.fin s.mem (g.fin - 1) true) := fun x hx => Or.inl (by
+      have hx' : x ∈ must { s with issued := s.issued ++ [⟨g, .failed⟩], hi := g.fin, seq := g.fin - 1, everFailed := true } := by
+        rw [must_eq] at hx ⊢; exact hx
+      rw [← hmust]; exact hx')
+    have hiss : ∀ x ∈ issuedGrps s, x ∈ issuedGrps (s.wr s.w (s.issued ++ [⟨g, .failed⟩]) g.fin s.mem (g.fin - 1) true) := by
+      intro x hx
+      simp only [issuedGrps, St.wr, List.map_append, List.mem_append] at hx ⊢
+      exact Or.inl hx
+    have hgi : g ∈ issuedGrps { s with issued := s.issued ++ [⟨g, .failed⟩], hi := g.fin, seq := g.fin - 1, everFailed := true } := by
+      simp [issuedGrps]
+    have hq : s.seq ≤ g.fin - 1 := by omega
+    have hseqhi : seqHi s ≤ seqHi { s with issued := s.issued ++ [⟨g, .failed⟩], hi := g.fin, seq := g.fin - 1, everFailed := true } :=
+      seqHi_le_of_not_window hntw hntw hq
+    -- the file after the operation
+    have key : ∀ (f : LogFile Grp → LogFile Grp), (∀ jf, (f jf).all = jf.all ∨ (f jf).all = jf.all ++ [g]) →
+        DiskOK cfg { d with journals := d.journals.modify s.jcur f }
+          (must { s with issued := s.issued ++ [⟨g, .failed⟩], hi := g.fin, seq := g.fin - 1, everFailed := true })
+          (issuedGrps { s with issued := s.issued ++ [⟨g, .failed⟩], hi := g.fin, seq := g.fin - 1, everFailed := true }) →
+        Inv cfg { s with issued := s.issued ++ [⟨g, .failed⟩], hi := g.fin, seq := g.fin - 1, everFailed := true }
+          { d with journals := d.journals.modify s.jcur f } := by
+      intro f hf hdisk
+      constructor
+      · exact hdisk
+      · exact h.mm.of_same rfl rfl
+      · intro _
+        exact hb.of_same rfl hseqhi (Nat.le_refl _) (fun _ => ⟨hph, Nat.le_refl _⟩)
+      · intro _
+        have := hrun.writer s.w (s.issued ++ [(⟨g, .failed⟩ : Issue)]) g.fin s.mem (g.fin - 1) true f hq
+          (fun hx => nomatch hx)
+          (fun jf x hx => by
+            rcases hf jf with h1 | h1 <;> rw [h1] at hx
+            · exact Or.inl hx
+            · rcases List.mem_append.1 hx with h2 | h2
+              · exact Or.inl h2
+              · simp only [List.mem_singleton] at h2; subst h2; exact Or.inr (by show s.seq < s.seq + 1; omega))
+          hmg (fun jf hjf => by
+            rw [hjf0] at hjf; cases hjf
+            rw [hinfl, List.append_nil]
+            obtain ⟨a, b, c, e, _⟩ := hjh0
+            refine ⟨fun x hx => ?_, fun x hx hxm => ?_, fun x hx => ?_, fun ht => ?_, fun hx => nomatch hx⟩
+            · rcases hf jf0 with h1 | h1 <;> rw [h1]
+              · exact a x hx
+              · exact List.mem_append_left _ (a x hx)
+            · rw [hmust] at hxm
+              rcases hf jf0 with h1 | h1 <;> rw [h1] at hx
+              · exact b x hx hxm
+              · rcases List.mem_append.1 hx with h2 | h2
+                · exact b x h2 hxm
+                · simp only [List.mem_singleton] at h2; subst h2; exact absurd hxm hnm
+            · rcases hf jf0 with h1 | h1 <;> rw [h1] at hx
+              · rcases c x hx with h2 | h2
+                · exact Or.inl h2
+                · right; show x.fin ≤ g.fin - 1 + 1; omega
+              · rcases List.mem_append.1 hx with h2 | h2
+                · rcases c x h2 with h3 | h3
+                  · exact Or.inl h3
+                  · right; show x.fin ≤ g.fin - 1 + 1; omega
+                · simp only [List.mem_singleton] at h2; subst h2
+                  right; show g.fin ≤ g.fin - 1 + 1; omega
+            · have : s.tr.isSome = true := ht
+              rw [htr] at this; cases this)
+          (by
+            show WSeqOK _
+            simp only [WSeqOK, hw]
+            intro x hx
+            have := hwseq x hx
+            show x.fin ≤ g.fin - 1 + 1
+            omega) htr
+        rw [hw] at this ⊢
+        exact this
+      · intro hc; rw [hph] at hc; cases hc
+      · intro hc; rw [hph] at hc; cases hc
+      · have := h.job.imp (fun j hj => hj.writer hph htr s.w (s.issued ++ [(⟨g, .failed⟩ : Issue)]) g.fin s.mem (g.fin - 1) true f hq hmg)
+        exact this
+    cases o with
+    | ok => cases hof
+    | failNoEffect =>
+      have e : d.exec (Op.writeJ s.jcur g) .failNoEffect = { d with journals := d.journals.modify s.jcur id } := by
+        simp only [Disk.exec]; rw [modify_id]
+      rw [e]
+      apply key id (fun jf => Or.inl rfl)
+      rw [disk_modify_id]
+      exact h.disk.mono (fun x hx => by rw [hmust] at hx; exact hx) hiss
+    | failEffect =>
+      apply key (·.append g) (fun jf => Or.inr (happ jf))
+      exact DiskOK.journal_append h.disk s.jcur g hrun.jmax ⟨hgi, hrecs⟩ hview
+        (fun x hx => by rw [hmust] at hx; exact hx) hiss
+  · -- the write succeeded
+    have hok' : o = .ok := by cases o <;> simp_all [Outcome.failed]
+    subst hok'
+    simp only [Outcome.failed, Bool.false_eq_true, if_false, Option.some.injEq, Prod.mk.injEq, Disk.exec,
+      Disk.apply] at hs
+    obtain ⟨rfl, rfl⟩ := hs
     have hmust : ∀ x ∈ must { s with w := .appended g, issued := s.issued ++ [⟨g, .pending⟩], hi := g.fin },
         x ∈ must s := by
       intro x hx
       rw [must_eq] at hx ⊢
       simp only [ackedSync_append_pending, List.append_nil, hw] at hx ⊢
       exact hx
+    have hmg : MustGrows s (s.wr (.appended g) (s.issued ++ [⟨g, .pending⟩]) g.fin s.mem s.seq s.everFailed) :=
+      fun x hx => Or.inl (hmust x hx)
     have hiss : ∀ x ∈ issuedGrps s,
         x ∈ issuedGrps { s with w := .appended g, issued := s.issued ++ [⟨g, .pending⟩], hi := g.fin } := by
       intro x hx
@@ -207,52 +425,59 @@ theorem inv_wAppend {cfg : Cfg} {s : St} {d : Disk} (h : Inv cfg s d) {recs : Li
     have hgi : g ∈ issuedGrps { s with w := .appended g, issued := s.issued ++ [⟨g, .pending⟩], hi := g.fin } := by
       simp [issuedGrps]
     constructor
-    · -- disk
-      apply DiskOK.journal_append h.disk s.jcur g hrun.jmax ⟨hgi, hrecs⟩ _ hmust hiss
-      intro mf hc k hk v hv
-      have hbv := hb.all mf hc k hk v hv
-      rw [seqHi_eq hntw] at hbv
-      have hok := h.disk.allViews mf hc k hk v hv
-      refine ⟨by rw [hgseq]; omega, fun x hx => ?_, fun p hp x hx => ?_⟩
-      · have := (hok.tseq x hx).1; rw [hgseq]; omega
-      · have := hold mf hc k hk v hv p hp x hx; rw [hgseq]; exact this
+    · exact DiskOK.journal_append h.disk s.jcur g hrun.jmax ⟨hgi, hrecs⟩ hview hmust hiss
     · exact h.mm.of_same rfl rfl
     · intro _
-      exact hb.of_same rfl (seqHi_le_of_not_window hntw hntw (Nat.le_refl _)) (Nat.le_refl _) (fun _ => ⟨hph, Nat.le_refl _⟩)
+      exact hb.of_same rfl (seqHi_le_of_not_window hntw hntw (Nat.le_refl _)) (Nat.le_refl _)
+        (fun _ => ⟨hph, Nat.le_refl _⟩)
     · intro _
-      apply hrun.writer (.appended g) _ _ s.mem s.seq (·.append g) (Nat.le_refl _)
-      · intro x hx
-        simp only [inflight, List.mem_append, List.mem_singleton] at hx
-        rcases hx with hx | rfl
-        · exact Or.inl (List.mem_append_left _ hx)
-        · exact Or.inr (by show s.seq < s.seq + 1; omega)
+      apply hrun.writer (.appended g) _ _ s.mem s.seq s.everFailed (·.append g) (Nat.le_refl _) (fun hx => hx)
+      · intro jf x hx
+        rw [happ] at hx
+        rcases List.mem_append.1 hx with h2 | h2
+        · exact Or.inl h2
+        · simp only [List.mem_singleton] at h2; subst h2; exact Or.inr (by show s.seq < s.seq + 1; omega)
+      · exact hmg
       · intro jf hjf
-        have hl := hrun.jcur
-        rw [hjf] at hl
-        simp only [Holds, hinfl, List.append_nil] at hl
-        simp only [LogFile.append, LogFile.all, inflight] at hl ⊢
-        rw [← List.append_assoc, hl]
+        rw [hjf0] at hjf; cases hjf
+        obtain ⟨a, b, c, e, e5⟩ := hjh0
+        refine ⟨fun x hx => ?_, fun x hx hxm => ?_, fun x hx => ?_, fun ht => ?_, fun hef x hx => ?_⟩
+        rotate_right
+        · rw [happ] at hx
+          simp only [inflight, List.mem_append, List.mem_singleton] at hx ⊢
+          rcases hx with hx | rfl
+          · exact Or.inl (e5 hef x hx)
+          · exact Or.inr rfl
+        · rw [happ]
+          simp only [inflight, List.mem_append, List.mem_singleton] at hx ⊢
+          rcases hx with hx | rfl
+          · exact Or.inl (a x hx)
+          · exact Or.inr rfl
+        · rw [happ] at hx
+          simp only [inflight, List.mem_append, List.mem_singleton] at hx ⊢
+          rcases hx with hx | rfl
+          · exact Or.inl (b x hx (hmust x hxm))
+          · exact Or.inr rfl
+        · rw [happ] at hx
+          simp only [inflight, List.mem_append, List.mem_singleton] at hx ⊢
+          rcases hx with hx | rfl
+          · rcases c x hx with h2 | h2
+            · exact Or.inl (Or.inl h2)
+            · exact Or.inr h2
+          · exact Or.inl (Or.inr rfl)
+        · have : s.tr.isSome = true := ht
+          rw [htr] at this; cases this
       · show WSeqOK _
         unfold WSeqOK
         exact ⟨rfl, hrecs, hgi, hwseq⟩
       · exact htr
     · intro hc; rw [hph] at hc; cases hc
     · intro hc; rw [hph] at hc; cases hc
-    · exact h.job.imp (fun j hj => hj.writer hph htr _ _ _ _ _ _)
-  · cases hs
+    · exact h.job.imp (fun j hj => hj.writer hph htr _ _ _ _ _ s.everFailed _ (Nat.le_refl _) hmg)
 
-
-theorem modify_id {α : Type} (m : Files α) (n : Nat) : m.modify n id = m := by
-  unfold Files.modify
-  conv => rhs; rw [← List.map_id m]
-  apply List.map_congr_left
-  intro p _
-  split
-  · rename_i h; cases p; simp_all
-  · rfl
-
-theorem disk_modify_id (d : Disk) (n : Nat) : { d with journals := d.journals.modify n id } = d := by
-  rw [modify_id]
+theorem inv_wAppend {cfg : Cfg} {s : St} {d : Disk} (h : Inv cfg s d) {recs : List Batch.Rec} {sync : Bool}
+    {s' : St} {d' : Disk} (hs : stepWriter cfg s d (.wAppend recs sync .ok) = some (s', d')) : Inv cfg s' d' :=
+  inv_wAppend_any h (fun hx => by simp [Outcome.failed] at hx) hs
 
 theorem Inv.running_of_w {cfg : Cfg} {s : St} {d : Disk} (h : Inv cfg s d) (hw : s.w ≠ .idle) : s.phase = .running := by
   rcases hp : s.phase with _ | _ | _
@@ -264,23 +489,37 @@ theorem Inv.running_of_w {cfg : Cfg} {s : St} {d : Disk} (h : Inv cfg s d) (hw :
   · rfl
 
 theorem RunOK.writer' {cfg : Cfg} {s : St} {d : Disk} (h : RunOK cfg s d)
-    (w' : WPc) (i' : List Issue) (h' : Nat) (m' : List Grp) (q' : Nat)
-    (hq : s.seq ≤ q') (hnew : ∀ g ∈ m' ++ inflight w', (g ∈ s.mem ++ inflight s.w) ∨ s.seq < g.seq)
-    (hall : m' ++ inflight w' = s.mem ++ inflight s.w)
-    (hws : WSeqOK { s with w := w', issued := i', hi := h', mem := m', seq := q' }) (htr : s.tr = none) :
-    RunOK cfg { s with w := w', issued := i', hi := h', mem := m', seq := q' } d := by
-  have := h.writer w' i' h' m' q' id hq hnew (fun jf hjf => by
-    have hl := h.jcur
-    rw [hjf] at hl
-    simp only [Holds, id] at hl ⊢
-    rw [hl, hall]) hws htr
+    (w' : WPc) (i' : List Issue) (h' : Nat) (m' : List Grp) (q' : Nat) (ef' : Bool)
+    (hq : s.seq ≤ q') (hef : ef' = false → s.everFailed = false)
+    (hm : MustGrows s { s with w := w', issued := i', hi := h', mem := m', seq := q', everFailed := ef' })
+    (hall : ∀ jf, lookup d.journals s.jcur = some jf →
+      JournalHolds { s with w := w', issued := i', hi := h', mem := m', seq := q', everFailed := ef' } jf (m' ++ inflight w') q')
+    (hws : WSeqOK { s with w := w', issued := i', hi := h', mem := m', seq := q', everFailed := ef' }) (htr : s.tr = none) :
+    RunOK cfg { s with w := w', issued := i', hi := h', mem := m', seq := q', everFailed := ef' } d := by
+  have := h.writer w' i' h' m' q' ef' id hq hef (fun _ g hg => Or.inl hg) hm hall hws htr
   rwa [disk_modify_id] at this
 
 theorem JobOK.writer' {cfg : Cfg} {s : St} {d : Disk} {j : Job} (h : JobOK cfg s d j) (hr : s.phase = .running)
-    (htr : s.tr = none) (w' : WPc) (i' : List Issue) (h' : Nat) (m' : List Grp) (q' : Nat) :
-    JobOK cfg { s with w := w', issued := i', hi := h', mem := m', seq := q' } d j := by
-  have := h.writer hr htr w' i' h' m' q' id
+    (htr : s.tr = none) (w' : WPc) (i' : List Issue) (h' : Nat) (m' : List Grp) (q' : Nat) (ef' : Bool)
+    (hq : s.seq ≤ q') (hm : MustGrows s { s with w := w', issued := i', hi := h', mem := m', seq := q', everFailed := ef' }) :
+    JobOK cfg { s with w := w', issued := i', hi := h', mem := m', seq := q', everFailed := ef' } d j := by
+  have := h.writer hr htr w' i' h' m' q' ef' id hq hm
   rwa [disk_modify_id] at this
+
+/-- the journal clause when only the bookkeeping changes: the same file, the same groups (as a set) -/
+theorem JournalHolds.same {s s' : St} {jf : LogFile Grp} {c c' : List Grp} {b b' : Nat}
+    (h : JournalHolds s jf c b) (hc : ∀ x, x ∈ c' ↔ x ∈ c) (hb : b ≤ b')
+    (hm : ∀ x ∈ must s', x ∈ must s ∨ x ∈ c') (htr : s'.tr = s.tr)
+    (hef : s'.everFailed = false → s.everFailed = false) : JournalHolds s' jf c' b' := by
+  obtain ⟨a, b0, c0, e, e5⟩ := h
+  refine ⟨fun x hx => a x ((hc x).1 hx), fun x hx hxm => ?_, fun x hx => ?_, by rw [htr]; exact e,
+    fun hx x hxa => (hc x).2 (e5 (hef hx) x hxa)⟩
+  · rcases hm x hxm with h1 | h1
+    · exact (hc x).2 (b0 x hx h1)
+    · exact h1
+  · rcases c0 x hx with h1 | h1
+    · exact Or.inl ((hc x).2 h1)
+    · exact Or.inr (by omega)
 
 theorem inv_wApply {cfg : Cfg} {s : St} {d : Disk} (h : Inv cfg s d) {s' : St} {d' : Disk}
     (hs : stepWriter cfg s d .wApply = some (s', d')) : Inv cfg s' d' := by
@@ -299,23 +538,29 @@ theorem inv_wApply {cfg : Cfg} {s : St} {d : Disk} (h : Inv cfg s d) {s' : St} {
       have := hrun.wseq
       unfold WSeqOK at this
       rcases hw with ⟨e, _⟩ | e <;> rw [e] at this <;> exact this
-    constructor
-    · apply h.disk.mono _ (fun x hx => hx)
+    have hmust : ∀ x ∈ must { s with w := .applied g, mem := s.mem ++ [g] }, x ∈ must s := by
       intro x hx
       rw [must_eq] at hx ⊢
       rcases hw with ⟨e, hns⟩ | e
       · simp only [e, hns, Bool.false_eq_true, if_false, List.append_nil] at hx ⊢; exact hx
       · simp only [e] at hx ⊢; exact hx
+    have hmg : MustGrows s { s with w := .applied g, issued := s.issued, hi := s.hi, mem := s.mem ++ [g], seq := s.seq, everFailed := s.everFailed } :=
+      fun x hx => Or.inl (hmust x hx)
+    constructor
+    · exact h.disk.mono hmust (fun x hx => hx)
     · exact h.mm.of_same rfl rfl
     · intro _
-      exact hb.of_same rfl (seqHi_le_of_not_window hntw hntw (Nat.le_refl _)) (Nat.le_refl _) (fun _ => ⟨hph, Nat.le_refl _⟩)
+      exact hb.of_same rfl (seqHi_le_of_not_window hntw hntw (Nat.le_refl _)) (Nat.le_refl _)
+        (fun _ => ⟨hph, Nat.le_refl _⟩)
     · intro _
-      apply hrun.writer' (.applied g) s.issued s.hi (s.mem ++ [g]) s.seq (Nat.le_refl _)
-      · intro x hx
-        rw [hinfl]
-        simp only [inflight, List.append_nil] at hx
-        exact Or.inl hx
-      · rw [hinfl]; simp [inflight]
+      apply hrun.writer' (.applied g) s.issued s.hi (s.mem ++ [g]) s.seq s.everFailed (Nat.le_refl _) (fun hx => hx)
+      · exact hmg
+      · intro jf hjf
+        have hl := hrun.jcur
+        rw [hjf] at hl
+        have hl : JournalHolds s jf (s.mem ++ inflight s.w) s.seq := hl
+        rw [hinfl] at hl
+        exact hl.same (fun x => by simp [inflight]) (Nat.le_refl _) (fun x hx => Or.inl (hmust x hx)) rfl (fun hx => hx)
       · show WSeqOK _
         unfold WSeqOK
         refine ⟨hwseq.1, hwseq.2.1, fun x hx => ?_⟩
@@ -326,7 +571,7 @@ theorem inv_wApply {cfg : Cfg} {s : St} {d : Disk} (h : Inv cfg s d) {s' : St} {
       · exact htr
     · intro hc; rw [hph] at hc; cases hc
     · intro hc; rw [hph] at hc; cases hc
-    · exact h.job.imp (fun j hj => hj.writer' hph htr _ _ _ _ _)
+    · exact h.job.imp (fun j hj => hj.writer' hph htr _ _ _ _ _ s.everFailed (Nat.le_refl _) hmg)
   simp only [stepWriter] at hs
   split at hs
   · rename_i g hw
@@ -363,19 +608,31 @@ theorem inv_wPublish {cfg : Cfg} {s : St} {d : Disk} (h : Inv cfg s d) {s' : St}
     obtain ⟨hgs, hgr, hmem⟩ := hwseq
     have hfin := Grp.fin_pos hgr
     have hq : s.seq ≤ g.fin - 1 := by omega
-    constructor
-    · apply h.disk.mono _ (fun x hx => hx)
+    have hmust : ∀ x ∈ must { s with w := .published g, seq := g.fin - 1 }, x ∈ must s := by
       intro x hx
       rw [must_eq] at hx ⊢
       simp only [hw] at hx ⊢
       exact hx
+    have hmg : MustGrows s { s with w := .published g, issued := s.issued, hi := s.hi, mem := s.mem, seq := g.fin - 1, everFailed := s.everFailed } :=
+      fun x hx => Or.inl (hmust x hx)
+    have hcontent : ∀ jf, lookup d.journals s.jcur = some jf →
+        JournalHolds { s with w := .published g, issued := s.issued, hi := s.hi, mem := s.mem, seq := g.fin - 1, everFailed := s.everFailed } jf
+          (s.mem ++ inflight (.published g)) (g.fin - 1) := by
+      intro jf hjf
+      have hl := hrun.jcur
+      rw [hjf] at hl
+      have hl : JournalHolds s jf (s.mem ++ inflight s.w) s.seq := hl
+      rw [hw] at hl
+      exact hl.same (fun x => by simp [inflight]) hq (fun x hx => Or.inl (hmust x hx)) rfl (fun hx => hx)
+    constructor
+    · exact h.disk.mono hmust (fun x hx => hx)
     · exact h.mm.of_same rfl rfl
     · intro _
       exact hb.of_same rfl (seqHi_le_of_not_window hntw hntw hq) (Nat.le_refl _) (fun _ => ⟨hph, Nat.le_refl _⟩)
     · intro _
-      apply hrun.writer' (.published g) s.issued s.hi s.mem (g.fin - 1) hq
-      · intro x hx; rw [hw]; exact Or.inl hx
-      · rw [hw]; rfl
+      apply hrun.writer' (.published g) s.issued s.hi s.mem (g.fin - 1) s.everFailed hq (fun hx => hx)
+      · exact hmg
+      · exact hcontent
       · show WSeqOK _
         unfold WSeqOK
         intro x hx
@@ -386,7 +643,7 @@ theorem inv_wPublish {cfg : Cfg} {s : St} {d : Disk} (h : Inv cfg s d) {s' : St}
       · exact htr
     · intro hc; rw [hph] at hc; cases hc
     · intro hc; rw [hph] at hc; cases hc
-    · exact h.job.imp (fun j hj => hj.writer' hph htr _ _ _ _ _)
+    · exact h.job.imp (fun j hj => hj.writer' hph htr _ _ _ _ _ s.everFailed hq hmg)
   · cases hs
 
 theorem inv_wAck {cfg : Cfg} {s : St} {d : Disk} (h : Inv cfg s d) {s' : St} {d' : Disk}
@@ -405,85 +662,209 @@ theorem inv_wAck {cfg : Cfg} {s : St} {d : Disk} (h : Inv cfg s d) {s' : St} {d'
     unfold WSeqOK at hwseq
     rw [hw] at hwseq
     simp only at hwseq
+    have hmust : ∀ x ∈ must { s with w := .idle, issued := setStatus g .acked s.issued }, x ∈ must s := by
+      intro x hx
+      rw [must_eq] at hx ⊢
+      simp only [hw, List.append_nil, List.mem_append] at hx ⊢
+      rcases mem_ackedSync_setStatus hx with h1 | ⟨rfl, hsy⟩
+      · exact Or.inl h1
+      · exact Or.inr (by simp [hsy])
+    have hmg : MustGrows s (s.wr .idle (setStatus g .acked s.issued) s.hi s.mem s.seq s.everFailed) :=
+      fun x hx => Or.inl (hmust x hx)
     constructor
-    · apply h.disk.mono
-      · intro x hx
-        rw [must_eq] at hx ⊢
-        simp only [hw, List.append_nil, List.mem_append] at hx ⊢
-        rcases mem_ackedSync_setStatus hx with h1 | ⟨rfl, hsy⟩
-        · exact Or.inl h1
-        · exact Or.inr (by simp [hsy])
-      · intro x hx
-        simp only [issuedGrps, issuedGrps_setStatus] at hx ⊢
-        exact hx
+    · apply h.disk.mono hmust
+      intro x hx
+      simp only [issuedGrps, issuedGrps_setStatus] at hx ⊢
+      exact hx
     · exact h.mm.of_same rfl rfl
     · intro _
-      exact hb.of_same rfl (seqHi_le_of_not_window hntw hntw (Nat.le_refl _)) (Nat.le_refl _) (fun _ => ⟨hph, Nat.le_refl _⟩)
+      exact hb.of_same rfl (seqHi_le_of_not_window hntw hntw (Nat.le_refl _)) (Nat.le_refl _)
+        (fun _ => ⟨hph, Nat.le_refl _⟩)
     · intro _
-      apply hrun.writer' .idle _ s.hi s.mem s.seq (Nat.le_refl _)
-      · intro x hx; rw [hw]; exact Or.inl hx
-      · rw [hw]; rfl
+      apply hrun.writer' .idle _ s.hi s.mem s.seq s.everFailed (Nat.le_refl _) (fun hx => hx)
+      · exact hmg
+      · intro jf hjf
+        have hl := hrun.jcur
+        rw [hjf] at hl
+        have hl : JournalHolds s jf (s.mem ++ inflight s.w) s.seq := hl
+        rw [hw] at hl
+        exact hl.same (fun x => by simp [inflight]) (Nat.le_refl _) (fun x hx => Or.inl (hmust x hx)) rfl (fun hx => hx)
       · show WSeqOK _
         unfold WSeqOK
         exact hwseq
       · exact htr
     · intro hc; rw [hph] at hc; cases hc
     · intro hc; rw [hph] at hc; cases hc
-    · exact h.job.imp (fun j hj => hj.writer' hph htr _ _ _ _ _)
+    · exact h.job.imp (fun j hj => hj.writer' hph htr _ _ _ _ _ s.everFailed (Nat.le_refl _) hmg)
   · cases hs
 
-theorem inv_wSync {cfg : Cfg} {s : St} {d : Disk} (h : Inv cfg s d) {s' : St} {d' : Disk}
-    (hs : stepWriter cfg s d (.wSync .ok) = some (s', d')) : Inv cfg s' d' := by
-  simp only [stepWriter, Disk.exec, Disk.apply] at hs
+/-- `journalWriter.Sync`: it may fail, with or without the file synced; a failure returns the error, nothing is
+    applied, the sequence numbers are consumed -/
+theorem inv_wSync_any {cfg : Cfg} {s : St} {d : Disk} (h : Inv cfg s d) {o : Outcome}
+    (hcs' : o.failed = true → cfg.consumeSeqOnJournalError = true) {s' : St} {d' : Disk}
+    (hs : stepWriter cfg s d (.wSync o) = some (s', d')) : Inv cfg s' d' := by
+  simp only [stepWriter] at hs
   split at hs
-  · rename_i g hw
-    split at hs
-    · rename_i hsy
-      simp only [Outcome.failed, Bool.false_eq_true, if_false, Option.some.injEq, Prod.mk.injEq] at hs
-      obtain ⟨rfl, rfl⟩ := hs
-      have hph : s.phase = .running := h.running_of_w (by rw [hw]; simp)
-      have hrun := h.run hph
-      have hb := h.bounds (by rw [hph]; decide)
-      have htr := hrun.tr_none_of_w (by rw [hw]; simp)
-      have hntw := h.not_trWindow_of_tr_none htr
-      have hwseq := hrun.wseq
-      unfold WSeqOK at hwseq
-      rw [hw] at hwseq
-      simp only at hwseq
-      have hjc := hrun.jcur
-      rw [holds_iff] at hjc
-      obtain ⟨jf, hjf, hall⟩ := hjc
-      rw [hw] at hall
+  rotate_left
+  · cases hs
+  rename_i g hw
+  split at hs
+  rotate_left
+  · cases hs
+  rename_i hsy
+  have hph : s.phase = .running := h.running_of_w (by rw [hw]; simp)
+  have hrun := h.run hph
+  have hb := h.bounds (by rw [hph]; decide)
+  have htr := hrun.tr_none_of_w (by rw [hw]; simp)
+  have hntw := h.not_trWindow_of_tr_none htr
+  have hwseq := hrun.wseq
+  unfold WSeqOK at hwseq
+  rw [hw] at hwseq
+  simp only at hwseq
+  obtain ⟨hgs, hgr, hgi, hmem⟩ := hwseq
+  have hfin := Grp.seq_lt_fin hgr
+  have hjc := hrun.jcur
+  rw [holds_iff] at hjc
+  obtain ⟨jf, hjf, hjh⟩ := hjc
+  rw [hw] at hjh
+  have hgj : g ∈ jf.all := hjh.1 g (by simp [inflight])
+  have hsall : ∀ jf : LogFile Grp, jf.sync.all = jf.all := by
+    intro jf; simp [LogFile.sync, LogFile.all]
+  by_cases hof : o.failed = true
+  · -- the sync failed: the call returns the error
+    have hcs := hcs' hof
+    simp only [hof, if_true, hcs, Option.some.injEq, Prod.mk.injEq] at hs
+    obtain ⟨rfl, rfl⟩ := hs
+    have hq : s.seq ≤ g.fin - 1 := by omega
+    have hmust : ∀ x ∈ must { s with w := .idle, issued := setStatus g .failed s.issued, hi := s.hi, seq := g.fin - 1, everFailed := true },
+        x ∈ must s ∧ x ≠ g := by
+      intro x hx
+      rw [must_eq] at hx ⊢
+      simp only [hw, List.append_nil] at hx ⊢
+      exact mem_ackedSync_setStatus_failed hx
+    have hmg : MustGrows s (s.wr .idle (setStatus g .failed s.issued) s.hi s.mem (g.fin - 1) true) :=
+      fun x hx => Or.inl (hmust x hx).1
+    have hiss : ∀ x ∈ issuedGrps s, x ∈ issuedGrps (s.wr .idle (setStatus g .failed s.issued) s.hi s.mem (g.fin - 1) true) := by
+      intro x hx
+      simp only [issuedGrps, St.wr, issuedGrps_setStatus] at hx ⊢
+      exact hx
+    have key : ∀ (f : LogFile Grp → LogFile Grp), (∀ jf, (f jf).all = jf.all) →
+        DiskOK cfg { d with journals := d.journals.modify s.jcur f }
+          (must { s with w := .idle, issued := setStatus g .failed s.issued, hi := s.hi, seq := g.fin - 1, everFailed := true })
+          (issuedGrps { s with w := .idle, issued := setStatus g .failed s.issued, hi := s.hi, seq := g.fin - 1, everFailed := true }) →
+        Inv cfg { s with w := .idle, issued := setStatus g .failed s.issued, hi := s.hi, seq := g.fin - 1, everFailed := true }
+          { d with journals := d.journals.modify s.jcur f } := by
+      intro f hf hdisk
       constructor
-      · apply DiskOK.journal_sync h.disk s.jcur _ (fun x hx => hx)
-        intro x hx
-        rw [must_eq] at hx ⊢
-        simp only [hw, hsy, if_true, List.mem_append, List.mem_singleton, List.append_nil] at hx ⊢
-        rcases hx with hx | rfl
-        · exact Or.inl hx
-        · refine Or.inr ⟨⟨(s.jcur, jf), lookup_some_mem hjf, rfl, by rw [hall]; simp [inflight]⟩, ?_⟩
-          intro mf hc k hk v hv
-          exact (hb.all mf hc k hk v hv).2.2 hph
+      · exact hdisk
       · exact h.mm.of_same rfl rfl
       · intro _
-        exact hb.of_same rfl (seqHi_le_of_not_window hntw hntw (Nat.le_refl _)) (Nat.le_refl _) (fun _ => ⟨hph, Nat.le_refl _⟩)
+        exact hb.of_same rfl (seqHi_le_of_not_window hntw hntw hq) (Nat.le_refl _) (fun _ => ⟨hph, Nat.le_refl _⟩)
       · intro _
-        apply hrun.writer (.synced g) s.issued s.hi s.mem s.seq (·.sync) (Nat.le_refl _)
-        · intro x hx
-          rw [hw]
+        apply hrun.writer .idle (setStatus g .failed s.issued) s.hi s.mem (g.fin - 1) true f hq (fun hx => nomatch hx)
+        · intro jf0 x hx
+          rw [hf] at hx
           exact Or.inl hx
+        · exact hmg
         · intro jf' hjf'
           rw [hjf] at hjf'; cases hjf'
-          simp only [LogFile.sync, LogFile.all, List.append_nil] at hall ⊢
-          exact hall
+          obtain ⟨a, b, c, e, _⟩ := hjh
+          refine ⟨fun x hx => ?_, fun x hx hxm => ?_, fun x hx => ?_, fun ht => ?_, fun hx => nomatch hx⟩
+          · rw [hf]
+            simp only [inflight, List.append_nil] at hx
+            exact a x (List.mem_append_left _ hx)
+          · rw [hf] at hx
+            obtain ⟨h1, h2⟩ := hmust x hxm
+            have := b x hx h1
+            simp only [inflight, List.mem_append, List.mem_singleton, List.append_nil] at this ⊢
+            rcases this with h3 | h3
+            · exact h3
+            · exact absurd h3 h2
+          · rw [hf] at hx
+            rcases c x hx with h1 | h1
+            · simp only [inflight, List.mem_append, List.mem_singleton, List.append_nil] at h1 ⊢
+              rcases h1 with h2 | h2
+              · exact Or.inl h2
+              · subst h2; right; show x.fin ≤ x.fin - 1 + 1; omega
+            · right; show x.fin ≤ g.fin - 1 + 1; omega
+          · have : s.tr.isSome = true := ht
+            rw [htr] at this; cases this
         · show WSeqOK _
-          unfold WSeqOK
-          exact hwseq
+          simp only [WSeqOK]
+          intro x hx
+          have := hmem x hx
+          show x.fin ≤ g.fin - 1 + 1
+          omega
         · exact htr
       · intro hc; rw [hph] at hc; cases hc
       · intro hc; rw [hph] at hc; cases hc
-      · exact h.job.imp (fun j hj => hj.writer hph htr _ _ _ _ _ _)
-    · cases hs
-  · cases hs
+      · exact h.job.imp (fun j hj => hj.writer hph htr _ _ _ _ _ true f hq hmg)
+    cases o with
+    | ok => cases hof
+    | failNoEffect =>
+      have e : d.exec (Op.sync FKind.journal s.jcur) .failNoEffect = { d with journals := d.journals.modify s.jcur id } := by
+        simp only [Disk.exec]; rw [modify_id]
+      rw [e]
+      apply key id (fun _ => rfl)
+      rw [disk_modify_id]
+      exact h.disk.mono (fun x hx => (hmust x hx).1) hiss
+    | failEffect =>
+      apply key (·.sync) hsall
+      exact DiskOK.journal_sync h.disk s.jcur (fun x hx => Or.inl (hmust x hx).1) hiss
+  · have hok' : o = .ok := by cases o <;> simp_all [Outcome.failed]
+    subst hok'
+    simp only [Outcome.failed, Bool.false_eq_true, if_false, Option.some.injEq, Prod.mk.injEq, Disk.exec,
+      Disk.apply] at hs
+    obtain ⟨rfl, rfl⟩ := hs
+    have hmustg : ∀ x ∈ must { s with w := .synced g }, x ∈ must s ∨ x = g := by
+      intro x hx
+      rw [must_eq] at hx ⊢
+      simp only [hw, hsy, if_true, List.mem_append, List.mem_singleton, List.append_nil] at hx ⊢
+      exact hx
+    have hmg : MustGrows s { s with w := .synced g, issued := s.issued, hi := s.hi, mem := s.mem, seq := s.seq, everFailed := s.everFailed } := by
+      intro x hx
+      rcases hmustg x hx with h1 | rfl
+      · exact Or.inl h1
+      · exact Or.inr (by omega)
+    constructor
+    · apply DiskOK.journal_sync h.disk s.jcur _ (fun x hx => hx)
+      intro x hx
+      rcases hmustg x hx with h1 | rfl
+      · exact Or.inl h1
+      · refine Or.inr ⟨⟨(s.jcur, jf), lookup_some_mem hjf, rfl, hgj⟩, ?_⟩
+        intro mf hc k hk v hv
+        exact (hb.all mf hc k hk v hv).2.2 hph
+    · exact h.mm.of_same rfl rfl
+    · intro _
+      exact hb.of_same rfl (seqHi_le_of_not_window hntw hntw (Nat.le_refl _)) (Nat.le_refl _)
+        (fun _ => ⟨hph, Nat.le_refl _⟩)
+    · intro _
+      apply hrun.writer (.synced g) s.issued s.hi s.mem s.seq s.everFailed (·.sync) (Nat.le_refl _) (fun hx => hx)
+      · intro jf0 x hx
+        rw [hsall] at hx
+        exact Or.inl hx
+      · exact hmg
+      · intro jf' hjf'
+        rw [hjf] at hjf'; cases hjf'
+        obtain ⟨a, b, c, e, e5⟩ := hjh
+        refine ⟨fun x hx => by rw [hsall]; exact a x hx, fun x hx hxm => ?_, fun x hx => by rw [hsall] at hx; exact c x hx,
+          fun ht => ?_, fun hef x hx => by rw [hsall] at hx; exact e5 hef x hx⟩
+        · rw [hsall] at hx
+          rcases hmustg x hxm with h1 | rfl
+          · exact b x hx h1
+          · simp [inflight]
+        · have : s.tr.isSome = true := ht
+          rw [htr] at this; cases this
+      · show WSeqOK _
+        unfold WSeqOK
+        exact ⟨hgs, hgr, hgi, hmem⟩
+      · exact htr
+    · intro hc; rw [hph] at hc; cases hc
+    · intro hc; rw [hph] at hc; cases hc
+    · exact h.job.imp (fun j hj => hj.writer hph htr _ _ _ _ _ s.everFailed _ (Nat.le_refl _) hmg)
+
+theorem inv_wSync {cfg : Cfg} {s : St} {d : Disk} (h : Inv cfg s d) {s' : St} {d' : Disk}
+    (hs : stepWriter cfg s d (.wSync .ok) = some (s', d')) : Inv cfg s' d' :=
+  inv_wSync_any h (fun hx => by simp [Outcome.failed] at hx) hs
 
 end GoLevel.Dur
